@@ -786,6 +786,37 @@ class CacheWorld(object):
                            'connections=%r' % (size, low, st.metricReceiversPaused,
                                                st.cacheTooFull, paused))
 
+  def check_reported_writer_counters(self):
+    """C03 with the daemon's own reporting on: what was reported at the instrumentation
+    ticks plus what is pending must account for every create, dropped create, error and
+    committed point in the backend history."""
+    if self.s.alive('W'):
+      w = self.s.th.get('W')
+      if w is None or w.wake is None:
+        return            # mid-pass: the counters of the batch in flight are not settled
+    calls = self.w.db.calls
+    creates_ok = len([r for r in calls if r[2] == 'create' and r[5] == 'ok'])
+    errors = len([r for r in calls if r[2] in ('create', 'write') and r[5] == 'raise'])
+    committed = sum(len(dict(r[4])) for r in calls if r[2] == 'write' and r[5] == 'ok')
+    dropped = 0
+    hist = self.whist
+    for i, ev in enumerate(hist):
+      if ev[0] == 'drain' and ev[1] is not None and ev[2]:
+        nxt = [e[1] for e in hist[i + 1:i + 3] if e[0] == 'db']
+        if nxt and nxt[0][2] == 'exists' and nxt[0][3] == ev[1] and nxt[0][5] == 'ok' \
+            and ev[1] not in self.files_at(nxt[0][0]):
+          dropped += 1
+    st = self.w.instrumentation.stats
+    for name, want in (('creates', creates_ok), ('errors', errors), ('committedPoints', committed),
+                       ('droppedCreates', dropped)):
+      got = self.reported.get(name, 0) + st.get(name, 0)
+      if got != want:
+        self.ctx.violation('C03', 'reported-count-differs', name,
+                           '%s: the backend history shows %d, the daemon reported %r over its '
+                           'instrumentation ticks plus %r pending' % (
+                             name, want, self.reported.get(name, 0), st.get(name, 0)))
+    self.ctx.probe('reported_writer_counters_checked')
+
   def check_overflow_counter(self):
     """C10: every refusal feeds the cache.overflow counter -- what was reported at the
     instrumentation ticks plus what is pending equals the refusals signalled."""
@@ -1058,6 +1089,8 @@ class CacheWorld(object):
     self.check_overflow_counter()
     if self.wmode == 'writer' and not self.settings.CARBON_METRIC_INTERVAL:
       self.check_writer_history()
+    elif self.wmode == 'writer':
+      self.check_reported_writer_counters()
     self.finish('done')
 
   def check_backpressure_drainer(self):
